@@ -5,6 +5,7 @@ import (
 	"fmt"
 	"os"
 	"strings"
+	"time"
 
 	"zombiezen.com/go/commonmark"
 )
@@ -29,18 +30,41 @@ type treeReplay struct {
 	Root  int    `json:"root"`
 }
 
+var treeHangs int
+
+// parseRoute parses under recover() and a watchdog: a parse that does not return within 20 s (normal time: microseconds) is reported
+// like a panic - there is no tree to look at - and after three of them (each leaves a spinning goroutine behind) the run stops parsing
+// anything that is not tiny.
 func parseRoute(input []byte, route int) (blocks []*commonmark.RootBlock, pm string) {
-	defer func() {
-		if r := recover(); r != nil {
-			pm = fmt.Sprint(r)
+	if treeHangs >= 3 && len(input) > 8 {
+		return nil, ""
+	}
+	type out struct {
+		blocks []*commonmark.RootBlock
+		pm     string
+	}
+	ch := make(chan out, 1)
+	go func() {
+		var o out
+		defer func() {
+			if r := recover(); r != nil {
+				o.pm = fmt.Sprint(r)
+			}
+			ch <- o
+		}()
+		if route == 0 {
+			o.blocks, _ = commonmark.Parse(append([]byte(nil), input...))
+		} else {
+			o.blocks, _, _ = streamParseEdgy(append([]byte(nil), input...))
 		}
 	}()
-	if route == 0 {
-		blocks, _ = commonmark.Parse(append([]byte(nil), input...))
-	} else {
-		blocks, _, _ = streamParseEdgy(append([]byte(nil), input...))
+	select {
+	case o := <-ch:
+		return o.blocks, o.pm
+	case <-time.After(20 * time.Second):
+		treeHangs++
+		return nil, "the parser did not return within 20 s (no tree to examine)"
 	}
-	return blocks, ""
 }
 
 func cmdTree(args []string) *Result {
